@@ -5,25 +5,25 @@ the properties anchored in `fourier.py` (C01, C05), so an edit there does not to
 open Finset
 namespace Lentil
 
-/-- entry of the source's `np.exp(c * 1j * np.pi * t)` -/
-noncomputable def srcExp (c : ℤ) (t : ℝ) : ℂ := Complex.exp ((c : ℂ) * Complex.I * Real.pi * (t : ℂ))
+/-- `np.exp(1j · φ)` for a real phase `φ` (the phase `c · π · t` itself is regenerated: `Gen.fwExpPhase1/2`) -/
+noncomputable def srcExp (φ : ℝ) : ℂ := Complex.exp (Complex.I * (φ : ℂ))
 
 theorem dftKernel_wired1 (f0 f1 : ℤ) (αr αc : ℝ) (M N : ℤ) (shr shc : ℝ) (offr offc : ℤ) (x u : ℤ) :
     (dftKernel αr f0 M offr shr x u : ℂ)
-      = srcExp Gen.fwExpCoeff1 (Gen.fwDft2E1Arg (fun i : ℤ => (i : ℝ)) f0 f1 αr αc M N shr shc offr offc u x) := by
+      = srcExp (Gen.fwExpPhase1 (fun i : ℤ => (i : ℝ)) Real.pi (Gen.fwDft2E1Arg (fun i : ℤ => (i : ℝ)) f0 f1 αr αc M N shr shc offr offc u x)) := by
   rw [dftKernel_eq]
   unfold ker srcExp
-  simp only [Gen.fwDft2E1Arg, Gen.fwE1Arg, Gen.fwExpCoeff1, Gen.fwCoord0, Gen.fwCoord2, cc]
+  simp only [Gen.fwDft2E1Arg, Gen.fwE1Arg, Gen.fwExpPhase1, Gen.fwCoord0, Gen.fwCoord2, cc]
   congr 1
   push_cast
   ring
 
 theorem dftKernel_wired2 (f0 f1 : ℤ) (αr αc : ℝ) (M N : ℤ) (shr shc : ℝ) (offr offc : ℤ) (y v : ℤ) :
     (dftKernel αc f1 N offc shc y v : ℂ)
-      = srcExp Gen.fwExpCoeff2 (Gen.fwDft2E2Arg (fun i : ℤ => (i : ℝ)) f0 f1 αr αc M N shr shc offr offc y v) := by
+      = srcExp (Gen.fwExpPhase2 (fun i : ℤ => (i : ℝ)) Real.pi (Gen.fwDft2E2Arg (fun i : ℤ => (i : ℝ)) f0 f1 αr αc M N shr shc offr offc y v)) := by
   rw [dftKernel_eq]
   unfold ker srcExp
-  simp only [Gen.fwDft2E2Arg, Gen.fwE2Arg, Gen.fwExpCoeff2, Gen.fwCoord1, Gen.fwCoord3, cc]
+  simp only [Gen.fwDft2E2Arg, Gen.fwE2Arg, Gen.fwExpPhase2, Gen.fwCoord1, Gen.fwCoord3, cc]
   congr 1
   push_cast
   ring
